@@ -28,6 +28,10 @@ type WireType struct {
 	// Decode runs the real decoder on b into a fresh value; it returns a pointer to it, the number of
 	// bytes left unread, and the decoder's error.
 	Decode func(b []byte) (ptr any, left int, err error)
+	// DecodeN runs the real decoder on b with a decoder whose byte limit (io.LimitedReader.N) is limit; all of b is
+	// available to the reader whatever the limit. For RHP4 objects this is the object's own decodeFrom (export shim),
+	// without the response framing and its transport-sized limit that Decode goes through.
+	DecodeN func(b []byte, limit int64) (ptr any, left int, err error)
 	// MaxBytes > 0: the protocol refuses longer encodings of this object (generated values are kept below it).
 	MaxBytes int
 	// Fix makes a freshly generated value valid where validity cannot be seen from the Go type
@@ -56,6 +60,15 @@ func (t *WireType) SafeDecode(b []byte) (ptr any, left int, err error, panicked 
 	return
 }
 
+// SafeDecodeN runs DecodeN and reports a panic of the decoder instead of propagating it.
+func (t *WireType) SafeDecodeN(b []byte, limit int64) (ptr any, left int, err error, panicked any) {
+	p, val := vlib.Recover(func() { ptr, left, err = t.DecodeN(b, limit) })
+	if p {
+		return nil, 0, nil, val
+	}
+	return
+}
+
 func encodeWith(fn func(e *types.Encoder)) []byte {
 	var buf bytes.Buffer
 	e := types.NewEncoder(&buf)
@@ -65,8 +78,13 @@ func encodeWith(fn func(e *types.Encoder)) []byte {
 }
 
 func decodeWith(b []byte, fn func(d *types.Decoder)) (left int, err error) {
+	return decodeWithN(b, int64(len(b)), fn)
+}
+
+// decodeWithN decodes from a reader holding all of b through a decoder that may consume at most limit bytes.
+func decodeWithN(b []byte, limit int64, fn func(d *types.Decoder)) (left int, err error) {
 	r := bytes.NewReader(b)
-	d := types.NewDecoder(io.LimitedReader{R: r, N: int64(len(b))})
+	d := types.NewDecoder(io.LimitedReader{R: r, N: limit})
 	fn(d)
 	return r.Len(), d.Err()
 }
@@ -83,6 +101,11 @@ func std[T any, P interface {
 			v := new(T)
 			left, err := decodeWith(b, P(v).DecodeFrom)
 			return v, left, err
+		},
+		DecodeN: func(b []byte, limit int64) (any, int, error) {
+			v := new(T)
+			left, err := decodeWithN(b, limit, P(v).DecodeFrom)
+			return v, left, err
 		}}
 }
 
@@ -93,6 +116,11 @@ func fn[T any](pkg, name string, enc func(*T, *types.Encoder), dec func(*T, *typ
 		Decode: func(b []byte) (any, int, error) {
 			v := new(T)
 			left, err := decodeWith(b, func(d *types.Decoder) { dec(v, d) })
+			return v, left, err
+		},
+		DecodeN: func(b []byte, limit int64) (any, int, error) {
+			v := new(T)
+			left, err := decodeWithN(b, limit, func(d *types.Decoder) { dec(v, d) })
 			return v, left, err
 		}}
 }
@@ -120,6 +148,11 @@ func obj4[T any, P interface {
 			r := bytes.NewReader(append([]byte{0}, b...))
 			err := rhp4.ReadResponse(r, P(v))
 			return v, r.Len(), err
+		},
+		DecodeN: func(b []byte, limit int64) (any, int, error) {
+			v := new(T)
+			left, err := decodeWithN(b, limit, func(d *types.Decoder) { rhp4.VerifDecode(P(v), d) })
+			return v, left, err
 		}}
 }
 
@@ -168,6 +201,11 @@ func rhp4Error() *WireType {
 				err = errors.New("an error response was read as a success")
 			}
 			return new(rhp4.RPCError), r.Len(), err
+		},
+		DecodeN: func(b []byte, limit int64) (any, int, error) {
+			v := new(rhp4.RPCError)
+			left, err := decodeWithN(b, limit, func(d *types.Decoder) { rhp4.VerifDecode(v, d) })
+			return v, left, err
 		}}
 }
 
